@@ -22,7 +22,7 @@ M = [
     ("M03", "dagrt/language.py", "                LogicalNot(self._last_if_block_conditional_expression))",
      "                self._last_if_block_conditional_expression)", ["C01"]),
     ("M04", "dagrt/exec_numpy.py", "        finally:\n            # discard non-permanent per-step state\n",
-     "        if True:\n            # discard non-permanent per-step state\n", ["C11"]),
+     "        except KeyboardInterrupt:\n            # discard non-permanent per-step state\n", ["C11", "C01"]),
     ("M05", "dagrt/language.py", "            self.executed_ids.add(stmt_id)\n\n            stmt = id_to_stmt[stmt_id]",
      "            stmt = id_to_stmt[stmt_id]", ["C04"]),
     ("M06", "dagrt/language.py", "            for dep_id in stmt.depends_on:\n                add_with_deps(id_to_stmt[dep_id])\n\n            assert stmt_id not in self.plan_id_set\n\n            early_plan.append(stmt_id)\n",
